@@ -1,6 +1,6 @@
 (* C01/ProofsPI.v — what a returning PolicyIteration run returns (structural part of pi_fixpoint). *)
 From Coq Require Import List Arith QArith Qminmax Lqa Lia Bool.
-From AIT Require Import Base.Qx Base.Mdp C01.Model C01.Spec C01.Proofs C01.ProofsVI C01.ProofsRepr.
+From AIT Require Import Base.Qx Base.Mdp C01.Model C01.Spec C01.Proofs C01.ProofsVI C01.ProofsRepr C01.ProofsSparse.
 Import ListNotations.
 Local Open Scope Q_scope.
 
@@ -33,4 +33,328 @@ Proof.
   pose proof (pe_residual_lemma m pol h tol vp) as Hres.
   destruct (pe_run m pol h tol vp) as [[var v] q']. unfold ps_q in Hq. cbn [snd] in Hq.
   split; [exact Hq|]. split; [exact Hd|]. intros Hwf Hpol Htol Hh. apply Hres; assumption.
+Qed.
+
+(* ================================================================== pi_fixpoint in full *)
+(* Slack of one checkEqualGeneral comparison between numbers of magnitude at most Qb *)
+Definition theta0 (Qb : Q) : Q := epsS + Qb * epsG.
+(* |max_a Q(s,a) - sum_a pol(s,a) Q(s,a)| when pol is (within epsS) the QGreedy matrix of Q:
+   two tie slacks (scan against the running maximum, then against the final one) plus epsS of weight
+   on each of the A actions whose Q-value may be as far as 2*Qb below the maximum *)
+Definition kappa (m : mdp) (Qb : Q) : Q :=
+  2 * theta0 Qb + inject_Z (Z.of_nat (nA m)) * (2 * epsS * Qb).
+
+Lemma qabs_le_of_bounds : forall x B, - B <= x /\ x <= B -> qabs x <= B.
+Proof. intros x B H. apply qabs_bounds. exact H. Qed.
+
+Lemma eqGeneral_bound : forall a b Qb, 0 <= Qb -> - Qb <= a /\ a <= Qb -> - Qb <= b /\ b <= Qb ->
+  eqGeneral a b = true -> - theta0 Qb <= a - b /\ a - b <= theta0 Qb.
+Proof.
+  intros a b Qb HQ Ha Hb H. unfold eqGeneral in H. apply orb_prop in H.
+  assert (HG : 0 <= Qb * epsG) by (unfold epsG; nra).
+  unfold theta0. destruct H as [H|H].
+  - unfold eqSmall in H. apply Qle_bool_iff in H. apply qabs_bounds in H. unfold epsS in *. split; lra.
+  - apply Qle_bool_iff in H.
+    assert (Hmin : Qmin (qabs a) (qabs b) * epsG <= Qb * epsG).
+    { pose proof (Q.le_min_l (qabs a) (qabs b)). pose proof (qabs_le_of_bounds a Qb Ha). unfold epsG. nra. }
+    assert (H' : qabs (a - b) <= Qb * epsG) by lra. apply qabs_bounds in H'. unfold epsS. split; lra.
+Qed.
+
+Lemma theta0_nonneg : forall Qb, 0 <= Qb -> 0 <= theta0 Qb.
+Proof. intros Qb H. unfold theta0, epsS, epsG. nra. Qed.
+
+Lemma greedy_scan_spec : forall Qb l mx0 c0, 0 <= Qb ->
+  (forall x, In x l -> - Qb <= x /\ x <= Qb) -> - Qb <= mx0 /\ mx0 <= Qb ->
+  let '(mx, c) := greedy_scan mx0 c0 l in
+  mx0 <= mx /\ (- Qb <= mx /\ mx <= Qb) /\ forall x, In x l -> x <= mx + theta0 Qb.
+Proof.
+  intros Qb l. induction l as [|val l IH]; intros mx0 c0 HQ Hl Hm; cbn [greedy_scan].
+  - split; [lra|]. split; [exact Hm| intros x []].
+  - pose proof (theta0_nonneg Qb HQ) as Ht.
+    assert (Hval : - Qb <= val /\ val <= Qb) by (apply Hl; left; reflexivity).
+    assert (Hl' : forall x, In x l -> - Qb <= x /\ x <= Qb) by (intros x Hx; apply Hl; right; exact Hx).
+    destruct (eqGeneral val mx0) eqn:E.
+    + specialize (IH mx0 (S c0) HQ Hl' Hm). destruct (greedy_scan mx0 (S c0) l) as [mx c].
+      destruct IH as (I1 & I2 & I3). split; [exact I1|]. split; [exact I2|].
+      intros x [<-|Hx]; [| apply I3; exact Hx].
+      destruct (eqGeneral_bound val mx0 Qb HQ Hval Hm E). lra.
+    + destruct (Qlt_le_dec mx0 val) as [Hlt|Hge].
+      * specialize (IH val 1%nat HQ Hl' Hval). destruct (greedy_scan val 1%nat l) as [mx c].
+        destruct IH as (I1 & I2 & I3). split; [lra|]. split; [exact I2|].
+        intros x [<-|Hx]; [lra| apply I3; exact Hx].
+      * specialize (IH mx0 c0 HQ Hl' Hm). destruct (greedy_scan mx0 c0 l) as [mx c].
+        destruct IH as (I1 & I2 & I3). split; [exact I1|]. split; [exact I2|].
+        intros x [<-|Hx]; [lra| apply I3; exact Hx].
+Qed.
+
+(* entries of a greedy row: zero unless checkEqualGeneral to a value mx with  maxl r <= mx + theta0 *)
+Lemma greedy_row_spec : forall Qb r, 0 <= Qb -> r <> [] ->
+  (forall x, In x r -> - Qb <= x /\ x <= Qb) ->
+  length (greedy_row r) = length r /\
+  exists mx c, (- Qb <= mx /\ mx <= Qb) /\ maxl r <= mx + theta0 Qb /\
+    forall a, (a < length r)%nat ->
+      nthq (greedy_row r) a = if eqGeneral (nthq r a) mx then c else 0.
+Proof.
+  intros Qb [|x t] HQ Hne Hb; [congruence|]. unfold greedy_row.
+  pose proof (greedy_scan_spec Qb t x 1%nat HQ (fun y Hy => Hb y (or_intror Hy)) (Hb x (or_introl eq_refl))) as H.
+  destruct (greedy_scan x 1%nat t) as [mx c]. destruct H as (H1 & H2 & H3).
+  pose proof (theta0_nonneg Qb HQ) as Ht.
+  split; [apply map_length|]. exists mx, (inv_count c). split; [exact H2|]. split.
+  - apply maxl_le; [discriminate|]. intros y [<-|Hy]; [lra| apply H3; exact Hy].
+  - intros a Ha. unfold nthq.
+    rewrite (nth_indep _ 0 ((fun v => if eqGeneral v mx then inv_count c else 0) 0)) by (rewrite map_length; exact Ha).
+    rewrite (map_nth (fun v => if eqGeneral v mx then inv_count c else 0)). reflexivity.
+Qed.
+
+Lemma qsum_const : forall c n, qsum (map (fun _ : nat => c) (seq 0 n)) == inject_Z (Z.of_nat n) * c.
+Proof.
+  intros c. induction n as [|n IH]; [change (inject_Z (Z.of_nat 0)) with 0; cbn [seq map qsum]; lra|].
+  rewrite seq_S, map_app, qsum_app, IH. cbn [map qsum plus]. rewrite Nat2Z.inj_succ. unfold Z.succ. rewrite inject_Z_plus. change (inject_Z 1) with 1. lra.
+Qed.
+
+(* one state: greedy value vs policy value *)
+Lemma greedy_value_close : forall Qb A qr pr, 0 <= Qb -> (0 < A)%nat ->
+  length qr = A -> length pr = A -> (forall x, In x qr -> - Qb <= x /\ x <= Qb) -> is_dist pr ->
+  (forall a, (a < A)%nat -> eqSmall (nthq pr a) (nthq (greedy_row qr) a) = true) ->
+  0 <= maxl qr - dot qr pr /\
+  maxl qr - dot qr pr <= 2 * theta0 Qb + inject_Z (Z.of_nat A) * (2 * epsS * Qb).
+Proof.
+  intros Qb A qr pr HQ HA Hlq Hlp Hb [Hnn Hsum] Heq.
+  assert (Hne : qr <> []) by (destruct qr; [cbn in Hlq; lia| discriminate]).
+  destruct (greedy_row_spec Qb qr HQ Hne Hb) as (_ & mx & c & Hmx & Hmax & Hent).
+  pose proof (theta0_nonneg Qb HQ) as Ht.
+  set (M := maxl qr) in *.
+  assert (HMb : - Qb <= M /\ M <= Qb).
+  { destruct (maxl_attained qr Hne) as [y [Hy Ey]]. fold M in Ey. rewrite Ey. apply Hb; exact Hy. }
+  assert (Hq : forall a, (a < A)%nat -> (- Qb <= nthq qr a /\ nthq qr a <= Qb) /\ nthq qr a <= M).
+  { intros a Ha. assert (Hin : In (nthq qr a) qr) by (unfold nthq; apply nth_In; lia).
+    split; [apply Hb; exact Hin| apply maxl_ub; exact Hin]. }
+  assert (Hp : forall a, (a < A)%nat -> 0 <= nthq pr a).
+  { intros a Ha. unfold nonneg in Hnn. rewrite Forall_forall in Hnn. apply Hnn. unfold nthq. apply nth_In. lia. }
+  (* dot and sum in index form *)
+  assert (Edot : dot qr pr == qsum (map (fun a => nthq qr a * nthq pr a) (seq 0 A))) by (rewrite dot_nth_sum, Hlq; reflexivity).
+  assert (Esum : qsum (map (nthq pr) (seq 0 A)) == 1) by (rewrite <- Hlp, qsum_nth; exact Hsum).
+  assert (Ediff : M - dot qr pr == qsum (map (fun a => nthq pr a * (M - nthq qr a)) (seq 0 A))).
+  { rewrite Edot.
+    assert (E : qsum (map (fun a => nthq pr a * (M - nthq qr a)) (seq 0 A)) ==
+                M * qsum (map (nthq pr) (seq 0 A)) - qsum (map (fun a => nthq qr a * nthq pr a) (seq 0 A))).
+    { rewrite <- qsum_map_scale, map_map, <- qsum_map_sub. apply qsum_map_ext. intros a _. lra. }
+    rewrite E, Esum. lra. }
+  (* termwise bounds *)
+  assert (Hterm : forall a, In a (seq 0 A) ->
+            0 <= nthq pr a * (M - nthq qr a) /\
+            nthq pr a * (M - nthq qr a) <= 2 * theta0 Qb * nthq pr a + 2 * epsS * Qb).
+  { intros a Ha. apply in_seq in Ha. destruct (Hq a ltac:(lia)) as [[Hq1 Hq2] Hq3]. pose proof (Hp a ltac:(lia)) as Hpa.
+    assert (HeQ : 0 <= 2 * epsS * Qb) by (unfold epsS; nra).
+    split; [nra|].
+    pose proof (Heq a ltac:(lia)) as He. rewrite (Hent a ltac:(lia)) in He.
+    destruct (eqGeneral (nthq qr a) mx) eqn:EG.
+    - (* near-maximal action *)
+      destruct (eqGeneral_bound _ _ Qb HQ (conj Hq1 Hq2) Hmx EG) as [L U].
+      assert (M - nthq qr a <= 2 * theta0 Qb) by lra. nra.
+    - (* weight at most epsS *)
+      unfold eqSmall in He. apply Qle_bool_iff in He. apply qabs_bounds in He.
+      assert (nthq pr a <= epsS) by lra. assert (M - nthq qr a <= 2 * Qb) by lra.
+      assert (0 <= 2 * theta0 Qb * nthq pr a) by nra. unfold epsS in *. nra. }
+  rewrite Ediff. split.
+  - assert (H0 : qsum (map (fun _ : nat => 0) (seq 0 A)) <= qsum (map (fun a => nthq pr a * (M - nthq qr a)) (seq 0 A))).
+    { apply qsum_map_le. intros a Ha. apply (proj1 (Hterm a Ha)). }
+    rewrite qsum_const in H0. lra.
+  - assert (H1 : qsum (map (fun a => nthq pr a * (M - nthq qr a)) (seq 0 A)) <=
+                 qsum (map (fun a => 2 * theta0 Qb * nthq pr a + 2 * epsS * Qb) (seq 0 A))).
+    { apply qsum_map_le. intros a Ha. apply (proj2 (Hterm a Ha)). }
+    rewrite (qsum_map_add _ (fun a => 2 * theta0 Qb * nthq pr a) (fun _ => 2 * epsS * Qb)) in H1.
+    rewrite qsum_const in H1.
+    assert (E2 : qsum (map (fun a => 2 * theta0 Qb * nthq pr a) (seq 0 A)) == 2 * theta0 Qb * qsum (map (nthq pr) (seq 0 A))).
+    { rewrite <- qsum_map_scale, map_map. reflexivity. }
+    rewrite E2, Esum in H1. lra.
+Qed.
+
+(* ------------------------------------------------------------------ matrices *)
+Definition dims (S A : nat) (q : mat) : Prop := length q = S /\ forall s, (s < S)%nat -> length (row q s) = A.
+
+Lemma mat_is_dims : forall q S A F, mat_is q S A F -> dims S A q.
+Proof. intros q S A F [Hl H]. split; [exact Hl|]. intros s Hs. apply (proj1 (H s Hs)). Qed.
+
+Lemma greedy_row_length : forall r, length (greedy_row r) = length r.
+Proof. intros [|x t]; [reflexivity|]. unfold greedy_row. destruct (greedy_scan x 1%nat t). apply map_length. Qed.
+
+Lemma greedy_matrix_row : forall q s, row (greedy_matrix q) s = greedy_row (row q s).
+Proof. intros q s. unfold row, greedy_matrix. exact (map_nth greedy_row q [] s). Qed.
+
+Lemma greedy_matrix_dims : forall S A q, dims S A q -> dims S A (greedy_matrix q).
+Proof.
+  intros S A q [Hl H]. split; [unfold greedy_matrix; rewrite map_length; exact Hl|].
+  intros s Hs. rewrite greedy_matrix_row, greedy_row_length. apply H; exact Hs.
+Qed.
+
+Lemma matrices_differ_false_nth : forall m1 m2 S A s a, dims S A m1 -> dims S A m2 ->
+  matrices_differ m1 m2 = false -> (s < S)%nat -> (a < A)%nat ->
+  eqSmall (nthq (row m1 s) a) (nthq (row m2 s) a) = true.
+Proof.
+  intros m1 m2 S A s a [L1 R1] [L2 R2] H Hs Ha. unfold matrices_differ in H.
+  assert (Hlen : (s < length (combine m1 m2))%nat) by (rewrite combine_length, L1, L2, Nat.min_id; exact Hs).
+  pose proof (existsb_nth _ (combine m1 m2) ([], []) Hlen H) as H1. cbv beta in H1.
+  rewrite combine_nth in H1 by (exact (eq_trans L1 (eq_sym L2))). cbn [fst snd] in H1.
+  fold (row m1 s) in H1. fold (row m2 s) in H1.
+  assert (Hlen2 : (a < length (combine (row m1 s) (row m2 s)))%nat)
+    by (rewrite combine_length, (R1 s Hs), (R2 s Hs), Nat.min_id; exact Ha).
+  pose proof (existsb_nth _ (combine (row m1 s) (row m2 s)) (0, 0) Hlen2 H1) as H2. cbv beta in H2.
+  rewrite combine_nth in H2 by (exact (eq_trans (R1 s Hs) (eq_sym (R2 s Hs)))). cbn [fst snd] in H2.
+  apply negb_false_iff in H2. exact H2.
+Qed.
+
+(* ------------------------------------------------------------------ last sweep of an evaluation *)
+Lemma ps_q_wrap : forall (X : pstate) (f : Q -> Q), ps_q (let '(var, v, q) := X in (f var, v, q)) = ps_q X.
+Proof. intros [[var v] q] f. reflexivity. Qed.
+
+Section PEFacts.
+  Variable m : mdp.
+  Variable cq : vec -> mat.
+  Hypothesis Hcq : cq_ok m cq.
+  Variable pol : mat.
+
+  Lemma pe_run_q_dims : forall h tol v0, dims (nS m) (nA m) (ps_q (pe_run_with (nS m) (nA m) cq (gam m) pol h tol v0)).
+  Proof.
+    intros h tol v0. unfold pe_run_with.
+    set (st_init := (tol * 2, (if Nat.eqb (length v0) (nS m) then v0 else vzero (nS m)), mtab (nS m) (nA m) (fun _ _ : nat => 0))).
+    assert (Hl : length (ps_v st_init) = nS m) by (unfold st_init, ps_v; cbn [fst snd]; apply start_length).
+    rewrite (ps_q_wrap _ (fun var => if use_tolerance tol then var else 0)).
+    destruct (pe_loop_cases m cq pol tol (use_tolerance tol) h st_init Hl) as [E|[[[var0 w0] q0] [_ E]]]; rewrite E.
+    - unfold st_init, ps_q. cbn [snd]. apply (mat_is_dims _ _ _ (fun _ _ => 0)). apply mtab_is. intros; reflexivity.
+    - rewrite pe_step_eq. unfold ps_q. cbn [snd]. apply (mat_is_dims _ _ _ _ (Hcq w0)).
+  Qed.
+
+  Lemma pe_run_last_step : forall h tol v0, epsS < tol -> (0 < h)%nat ->
+    exists var0 w0 q0, length w0 = nS m /\
+      pe_run_with (nS m) (nA m) cq (gam m) pol h tol v0 = pe_step (nS m) cq (gam m) true pol (var0, w0, q0).
+  Proof.
+    intros h tol v0 Htol Hh. unfold pe_run_with. rewrite (use_tolerance_big tol Htol).
+    set (v1 := if Nat.eqb (length v0) (nS m) then v0 else vzero (nS m)).
+    set (st_init := (tol * 2, v1, mtab (nS m) (nA m) (fun _ _ : nat => 0))).
+    assert (Hl1 : length (ps_v st_init) = nS m) by (unfold st_init, ps_v; cbn [fst snd]; apply start_length).
+    destruct h as [|h]; [lia|].
+    assert (Hc : pe_continue tol true st_init = true).
+    { unfold st_init, pe_continue. cbn [negb orb]. destruct (Qle_bool (tol * 2) tol) eqn:E; [| reflexivity].
+      apply Qle_bool_iff in E. unfold epsS in Htol. exfalso.
+      assert (0 < tol) by (eapply Qlt_trans; [| exact Htol]; reflexivity). lra. }
+    assert (Hstep : exists st0, length (ps_v st0) = nS m /\
+              pe_loop (nS m) cq (gam m) tol true pol (S h) st_init = pe_step (nS m) cq (gam m) true pol st0).
+    { cbn [pe_loop]. rewrite Hc.
+      assert (Hl' : length (ps_v (pe_step (nS m) cq (gam m) true pol st_init)) = nS m).
+      { unfold st_init. rewrite pe_step_eq. unfold ps_v. cbn [fst snd]. apply pe_values_length. }
+      destruct (pe_loop_cases m cq pol tol true h _ Hl') as [E|[st0 [Hl0 E]]].
+      - exists st_init. split; [exact Hl1| exact E].
+      - exists st0. split; [exact Hl0| exact E]. }
+    destruct Hstep as [[[var0 w0] q0] [Hl0 E]]. exists var0, w0, q0. split; [exact Hl0|].
+    rewrite E. rewrite pe_step_eq. reflexivity.
+  Qed.
+End PEFacts.
+
+(* ------------------------------------------------------------------ the outer loop *)
+Lemma pi_loop_result2 : forall m cq h tol, cq_ok m cq ->
+  forall fuel iters matrix vparam n q,
+  (exists q0, dims (nS m) (nA m) q0 /\ matrix = greedy_matrix q0) ->
+  pi_loop (nS m) (nA m) cq (gam m) h tol fuel iters matrix vparam = Some (n, q) ->
+  exists q0 vp, dims (nS m) (nA m) q0 /\
+    ps_q (pe_run_with (nS m) (nA m) cq (gam m) (greedy_matrix q0) h tol vp) = q /\
+    matrices_differ (greedy_matrix q0) (greedy_matrix q) = false.
+Proof.
+  intros m cq h tol Hcq. induction fuel as [|fuel IH]; intros iters matrix vparam n q Hm H; cbn [pi_loop] in H; [discriminate|].
+  pose proof (pe_run_q_dims m cq Hcq matrix h tol vparam) as Hd.
+  destruct (pe_run_with (nS m) (nA m) cq (gam m) matrix h tol vparam) as [[var v] q'] eqn:E.
+  unfold ps_q in Hd. cbn [snd] in Hd.
+  destruct (matrices_differ matrix (greedy_matrix q')) eqn:D.
+  - apply (IH _ _ _ _ _ (ex_intro _ q' (conj Hd eq_refl)) H).
+  - inversion H; subst. destruct Hm as [q0 [Hq0 ->]]. exists q0, vparam. rewrite E.
+    split; [exact Hq0|]. split; [reflexivity| exact D].
+Qed.
+
+(* more fuel never changes a returned answer: "returns" is a property of the run, not of the fuel *)
+Lemma pi_loop_fuel_mono : forall S A cq gamma h tol fuel k iters matrix vparam r,
+  pi_loop S A cq gamma h tol fuel iters matrix vparam = Some r ->
+  pi_loop S A cq gamma h tol (fuel + k) iters matrix vparam = Some r.
+Proof.
+  intros S A cq gamma h tol. induction fuel as [|fuel IH]; intros k iters matrix vparam r H; cbn [pi_loop] in H; [discriminate|].
+  cbn [plus pi_loop]. destruct (pe_run_with S A cq gamma matrix h tol vparam) as [[var v] q'].
+  destruct (matrices_differ matrix (greedy_matrix q')); [apply IH; exact H| exact H].
+Qed.
+
+Theorem pi_fuel_independent_lemma : forall m h tol fuel k r,
+  pi_run m h tol fuel = Some r -> pi_run m h tol (fuel + k) = Some r.
+Proof. intros m h tol fuel k r H. unfold pi_run, pi_run_with in *. apply pi_loop_fuel_mono; exact H. Qed.
+
+(* ------------------------------------------------------------------ pi_fixpoint *)
+Theorem pi_fixpoint_lemma : forall m h tol fuel n q Qb, wf_mdp m -> epsS < tol -> (0 < h)%nat -> 0 <= Qb ->
+  pi_run m h tol fuel = Some (n, q) ->
+  (forall s a, (s < nS m)%nat -> (a < nA m)%nat -> - Qb <= nthq (row q s) a /\ nthq (row q s) a <= Qb) ->
+  exists pol vp var v,
+    pe_run m pol h tol vp = (var, v, q) /\ 0 <= var /\
+    matrices_differ pol (greedy_matrix q) = false /\
+    (wf_policy m pol -> residual_le m (fst (bellman q)) (gam m * (var + kappa m Qb))).
+Proof.
+  intros m h tol fuel n q Qb Hwf Htol Hh HQ Hrun Hbq.
+  pose proof Hwf as (HS & HA & Hg0 & Hg1 & _).
+  pose proof (compute_q_ok m) as Hcq.
+  unfold pi_run, pi_run_with in Hrun.
+  destruct (pi_loop_result2 m _ h tol Hcq fuel O (greedy_matrix (mtab (nS m) (nA m) (fun _ _ => 0))) [] n q) as (q0 & vp & Hq0 & Hq & Hd).
+  { exists (mtab (nS m) (nA m) (fun _ _ => 0)). split; [| reflexivity].
+    apply (mat_is_dims _ _ _ (fun _ _ => 0)). apply mtab_is. intros; reflexivity. }
+  { exact Hrun. }
+  set (pol := greedy_matrix q0) in *.
+  pose proof (greedy_matrix_dims _ _ _ Hq0) as Hpd. fold pol in Hpd.
+  destruct (pe_run_last_step m (compute_q m (imm_rewards m)) pol h tol vp Htol Hh) as (var0 & w0 & q0' & Hl0 & Elast).
+  fold (pe_run m pol h tol vp) in Elast, Hq. rewrite pe_step_eq in Elast.
+  set (q1 := compute_q m (imm_rewards m) (vscale (gam m) w0)) in *.
+  set (w1 := pe_values (nS m) q1 pol) in *.
+  rewrite Elast in Hq. unfold ps_q in Hq. cbn [snd] in Hq. subst q.
+  exists pol, vp, (variation w1 w0), w1. split; [exact Elast|].
+  assert (Hvar : 0 <= variation w1 w0) by apply dist_nonneg.
+  split; [exact Hvar|]. split; [exact Hd|]. intros Hpol.
+  (* dimensions of q1 *)
+  pose proof (Hcq w0) as Hq1. fold q1 in Hq1. pose proof (mat_is_dims _ _ _ _ Hq1) as Hq1d.
+  pose proof (greedy_matrix_dims _ _ _ Hq1d) as Hgd.
+  assert (Hlw1 : length w1 = nS m) by (unfold w1; apply pe_values_length).
+  set (Mv := fst (bellman q1)).
+  assert (HlM : length Mv = nS m) by (unfold Mv; rewrite (proj1 (bellman_lengths q1)); apply (proj1 Hq1d)).
+  assert (HMT : veq Mv (T_op m w0)) by (apply (step_values m _ Hcq HA w0)).
+  (* greedy values vs policy values *)
+  assert (Hkap : 0 <= kappa m Qb).
+  { unfold kappa. pose proof (theta0_nonneg Qb HQ).
+    assert (0 <= inject_Z (Z.of_nat (nA m))) by (unfold Qle, inject_Z; cbn; lia).
+    assert (0 <= 2 * epsS * Qb) by (unfold epsS; nra). nra. }
+  assert (HcM : close (kappa m Qb) Mv w1).
+  { apply (Forall2_nth_intro _ _ _ 0 0); [congruence|]. intros s Hs. rewrite HlM in Hs.
+    pose proof (proj2 Hq1d s Hs) as Hrl.
+    assert (Hne : row q1 s <> []) by (destruct (row q1 s); [cbn in Hrl; lia| discriminate]).
+    destruct (bellman_spec q1 s Hne) as (_ & EM & _ & _). fold Mv in EM. unfold nthq in EM.
+    assert (Ew : nth s w1 0 = dot (row q1 s) (row pol s)) by (unfold w1, pe_values; apply nth_map_seq; exact Hs).
+    rewrite EM, Ew.
+    destruct (greedy_value_close Qb (nA m) (row q1 s) (row pol s) HQ HA Hrl (proj2 Hpd s Hs)) as [L U].
+    - intros x Hx. destruct (In_nth _ _ 0 Hx) as [a [Ha <-]]. rewrite Hrl in Ha. apply (Hbq s a Hs Ha).
+    - apply Hpol; exact Hs.
+    - intros a Ha. rewrite <- greedy_matrix_row.
+      apply (matrices_differ_false_nth pol (greedy_matrix q1) (nS m) (nA m) s a Hpd Hgd Hd Hs Ha).
+    - unfold kappa. split; lra. }
+  assert (Hcv : close (variation w1 w0) w1 w0) by (apply dist_close; congruence).
+  pose proof (close_trans _ _ _ _ _ HcM Hcv) as HcMw.
+  assert (Hd0 : 0 <= kappa m Qb + variation w1 w0) by lra.
+  pose proof (T_contraction_lemma m _ _ _ Hwf Hd0 HcMw) as HT.
+  unfold residual_le. apply close_sym.
+  eapply close_weaken; [| apply (close_veq_r _ _ (T_op m w0)); [exact HT| apply veq_sym; exact HMT]].
+  nra.
+Qed.
+
+(* hence PolicyIteration and ValueIteration agree within the bound implied by their tolerances *)
+Theorem pi_vi_close_lemma : forall m h tol v0 vpi e_pi, wf_mdp m -> epsS < tol -> (0 < h)%nat ->
+  length vpi = nS m -> residual_le m vpi e_pi ->
+  let '(var, v, acts, q) := vi_run m h tol v0 in
+  close ((gam m * var + e_pi) / (1 - gam m)) v vpi.
+Proof.
+  intros m h tol v0 vpi e_pi Hwf Htol Hh Hl Hres. pose proof Hwf as (_ & HA & _).
+  pose proof (run_residual m _ (compute_q_ok m) HA h tol v0 Hwf Htol Hh) as H. cbv zeta in H.
+  unfold run in H. fold (vi_run m h tol v0) in H.
+  destruct (vi_run m h tol v0) as [[[var v] acts] q].
+  unfold st_var, st_v in H. cbn [fst snd] in H. destruct H as (_ & Hlv & Hr & _).
+  apply approx_fixpoints_close_lemma; assumption.
 Qed.
